@@ -69,6 +69,8 @@ struct JobResult {
     apply: String,
     mem: String,
     rt: String,
+    /// definitions of the composite values of the runtime view (`K` lines of the worker)
+    cv: Vec<String>,
     died: bool,
 }
 
@@ -105,6 +107,7 @@ impl Pool {
                         "A" => res.apply = rest,
                         "X" => res.mem = rest,
                         "R" => res.rt = rest,
+                        "K" => res.cv.push(rest),
                         "E" => break,
                         _ => {}
                     }
@@ -1126,6 +1129,9 @@ pub fn run(args: &Args) -> i32 {
         out.line(format!("# kind={} len={} {}", spec.kind, spec.bytes.len(), spec.notes.join(" ; ")));
         out.count(&format!("kind-{}", spec.kind));
         let rt = if res.rt.is_empty() { "- - - 0,0,0 -".to_string() } else { res.rt.clone() };
+        for def in &res.cv {
+            out.line(format!("cv {def}"));
+        }
         out.line(format!("rt {rt}"));
         out.line(format!("bytes {}", hex(&spec.bytes)));
         out.line("decode");
